@@ -651,8 +651,28 @@ Definition check_def (doc : tsdoc) (d : tsdef) : list cerr :=
   | TSSchemaExt _ | TSTypeExt _ => []        (* not present in a resolved TypeSystemDocument *)
   end.
 
-(** check_type_system_document *)
-Definition check_doc (doc : tsdoc) : list cerr := flat_map (check_def doc) doc.
+(** check_type_system_document (451006c): the definitions in order, with the names of the directive definitions seen
+    so far; a non-built-in directive definition whose name was already seen gets DuplicatedName at its name, before its
+    own checks; definitions positioned as built-in (generate_builtins / nitrogql_builtins) are neither recorded nor
+    reported *)
+Definition dup_directive_errs (seen : list str) (d : tsdef) : list cerr :=
+  match d with
+  | TSDirective dd =>
+      if pbuiltin (dd_pos dd) then []
+      else if mem (dname dd) seen then [err (DuplicatedName (dname dd)) (ipos (dd_name dd))] else []
+  | _ => []
+  end.
+Definition seen_after (seen : list str) (d : tsdef) : list str :=
+  match d with
+  | TSDirective dd => if pbuiltin (dd_pos dd) then seen else if mem (dname dd) seen then seen else dname dd :: seen
+  | _ => seen
+  end.
+Fixpoint check_defs (doc : tsdoc) (seen : list str) (defs : list tsdef) : list cerr :=
+  match defs with
+  | [] => []
+  | d :: r => dup_directive_errs seen d ++ check_def doc d ++ check_defs doc (seen_after seen d) r
+  end.
+Definition check_doc (doc : tsdoc) : list cerr := check_defs doc [] doc.
 
 (** * semantics/src/schema_extension_resolver: does resolve_schema_extensions fail?
     (ExtensionList::set_original: a second original of the same kind and name; into_original_and_extensions:
